@@ -46,7 +46,7 @@ func groupKey(n node, tags [][2]int64) [][2]int64 {
 	for _, t := range tags {
 		listed := false
 		for _, l := range n.labels {
-			if int64(l) == t[0] {
+			if int64(labelIdx(l)) == t[0] {
 				listed = true
 			}
 		}
